@@ -1286,6 +1286,7 @@ class RenameSeries(Elemwise):
 
 class Fillna(Elemwise):
     _projection_passthrough = True
+    _column_keyed_parameters = ("value",)
     _parameters = ["frame", "value"]
     _defaults = {"value": None}
     operation = M.fillna
@@ -1293,6 +1294,7 @@ class Fillna(Elemwise):
 
 class Replace(Elemwise):
     _projection_passthrough = True
+    _column_keyed_parameters = ("to_replace", "value")
     _parameters = ["frame", "to_replace", "value", "regex"]
     _defaults = {"to_replace": None, "value": no_default, "regex": False}
     _keyword_only = ["value", "regex"]
@@ -1300,9 +1302,16 @@ class Replace(Elemwise):
 
 
 class Isin(Elemwise):
-    _projection_passthrough = True
     _parameters = ["frame", "values"]
     operation = M.isin
+
+    @functools.cached_property
+    def _projection_passthrough(self):
+        # A dict of values is keyed by column labels for a frame; a series
+        # would compare with the keys
+        obj = getattr(self.operand("values"), "obj", None)
+        task = obj.dask.get(obj.key) if hasattr(obj, "dask") else obj
+        return not (isinstance(task, tuple) and len(task) > 0 and task[0] is dict)
 
     @functools.cached_property
     def _meta(self):
@@ -3846,6 +3855,14 @@ def plain_column_projection(expr, parent, dependents, additional_columns=None):
     elif column_union not in expr.frame.columns:
         # we are accesing the index
         column_union = []
+    elif any(
+        isinstance(expr.operand(param), dict)
+        for param in getattr(expr, "_column_keyed_parameters", ())
+    ):
+        # A dict parameter of fillna or replace is keyed by column labels for
+        # a frame and by index labels or values for a series: the input stays
+        # a frame
+        column_union = [column_union]
 
     if column_union == expr.frame.columns:
         return
